@@ -25,17 +25,19 @@ EXTREME_SCALES = (1e-6, 1e-4, 1e4, 1e6)
 
 
 class calm:
-    """context manager: hostile regimes off (for sub-checks whose objects have an intrinsic O(1)
-    length scale - kernels, link functions, quadrature proposals)."""
+    """context manager: the hostile *magnitude* regimes (scale, mean) off, for sub-checks whose
+    objects have an intrinsic O(1) length scale - kernels, link functions, quadrature proposals.
+    Special values (exact zeros, identical components, ...) are not a matter of magnitude and
+    stay as they are."""
 
     def __enter__(self):
-        global HOSTILE_SCALE, HOSTILE_MEAN, HOSTILE_SPECIAL
-        self.saved = (HOSTILE_SCALE, HOSTILE_MEAN, HOSTILE_SPECIAL)
-        HOSTILE_SCALE = HOSTILE_MEAN = HOSTILE_SPECIAL = False
+        global HOSTILE_SCALE, HOSTILE_MEAN
+        self.saved = (HOSTILE_SCALE, HOSTILE_MEAN)
+        HOSTILE_SCALE = HOSTILE_MEAN = False
 
     def __exit__(self, *a):
-        global HOSTILE_SCALE, HOSTILE_MEAN, HOSTILE_SPECIAL
-        HOSTILE_SCALE, HOSTILE_MEAN, HOSTILE_SPECIAL = self.saved
+        global HOSTILE_SCALE, HOSTILE_MEAN
+        HOSTILE_SCALE, HOSTILE_MEAN = self.saved
 
 
 def J(a):
@@ -71,6 +73,8 @@ def spd(rng, D, kappa=None, scale=None, diag=False):
         scale = 10.0 ** rng.uniform(-1, 1)
         if HOSTILE_SCALE and rng.random() < 0.2:
             scale = float(rng.choice(EXTREME_SCALES))
+    if HOSTILE_SPECIAL and D > 1 and rng.random() < 0.06:
+        return float(scale) * np.eye(D)  # isotropic: exactly repeated eigenvalues
     if D == 1:
         lam = np.array([1.0])
     else:
